@@ -2,14 +2,20 @@
 
    autoxact.load <journal AST as JSON>
      journal AST of tools/jgen.py extended with
-       "rules": [{"pred": pred, "lines": [{"account","kind","amount","line"}], "line": n}, …]
+       "rules": [{"pred": pred, "line": n, "body": [entry, …]}, …]
        "items": [{"k":"r"|"x","i": index into rules / xacts}, …]   (file order)
+       entry = {"t":"post","account","kind","state","amount": amount|null,"expr": text|null,
+                "cost": cost|null,"note": text,"line": n}
+             | {"t":"note","text": text}                      (a `; text` line of the rule)
+             | {"t":"check","kind":"assert"|"check"|"expr","expr": text}
        pred = {"t":"const","b":bool} | {"t":"acct"|"payee","pat":s}
-            | {"t":"gt"|"lt"|"ge"|"le","n":int} | {"t":"not","a":pred}
+            | {"t":"gt"|"lt"|"ge"|"le","n":int} | {"t":"not"|"any"|"all","a":pred}
             | {"t":"and"|"or","a":pred,"b":pred} | {"t":"ite","c":pred,"a":pred,"b":pred}
+       a lot-annotated commodity is written BASE{num/den:PRICECOMM}[day or empty]
      answers
-       ok <TAB> rows joined by ';', one per posting of every accepted transaction in order:
-            xact line|posting line|account|kind|q:prec:keep:comm|generated|calculated
+       ok <TAB> rows joined by ';' <TAB> warnings joined by ';'
+            row: xact line|posting line|account|kind|state|q:prec:keep:comm|cost q:prec:keep:comm or -|note|generated|calculated
+            warning: xact line:count   (only transactions with count > 0)
        err <TAB> errors joined by ';':  xact line:rule line (0 = not inside a rule):kind
        err <TAB> unsupported        (the journal leaves the modelled fragment)
 -/
@@ -34,6 +40,12 @@ partial def pred? (j : Json) : Option Pred := do
   | "not" => do
     let a ← pred? (← J.obj? j "a")
     pure (Pred.not a)
+  | "any" => do
+    let a ← pred? (← J.obj? j "a")
+    pure (Pred.any a)
+  | "all" => do
+    let a ← pred? (← J.obj? j "a")
+    pure (Pred.all a)
   | "and" => do
     let a ← pred? (← J.obj? j "a")
     let b ← pred? (← J.obj? j "b")
@@ -49,18 +61,60 @@ partial def pred? (j : Json) : Option Pred := do
     pure (Pred.ite c a b)
   | _ => none
 
+def expr? (s : String) : Option Expr :=
+  match parseText s with
+  | .ok e => some e
+  | .error _ => none
+
 def ruleLine? (j : Json) : Option RuleLine := do
   let acct ← J.str? j "account"
   let kind ← J.kind? (← J.str? j "kind")
-  let amt ← J.amount? (← J.obj? j "amount")
   let line ← J.nat? j "line"
-  pure { account := acct, kind := kind, amount := amt, line := line }
+  let st := (J.nat? j "state").getD 0
+  let note := noteOf ((J.str? j "note").getD "")
+  let cost ← J.optField j "cost" J.cost?
+  match J.obj? j "amount", J.str? j "expr" with
+  | some a, none =>
+    let amt ← J.amount? a
+    let c := cost.map (fun c => FinX.parseCost (fun _ => 0) amt c)
+    pure { account := acct, kind := kind, state := st, amt := .lit amt, cost := c, note := note, line := line }
+  | none, some s =>
+    let e ← expr? s
+    match cost with
+    | some _ => none
+    | none => pure { account := acct, kind := kind, state := st, amt := .expr e, cost := none, note := note, line := line }
+  | _, _ => none
+
+def checkKind? (s : String) : Option CheckKind :=
+  match s with
+  | "assert" => some .assert
+  | "check" => some .check
+  | "expr" => some .general
+  | _ => none
+
+/-- the body of a rule in file order: posting lines, `; note` lines (attached to
+    the posting line they follow), check / assert / expr lines. -/
+def body? : List Json → List RuleLine → List RNote → List Check → Option (List RuleLine × List RNote × List Check)
+  | [], ls, ns, cs => some (ls, ns, cs)
+  | j :: js, ls, ns, cs =>
+    match J.str? j "t" with
+    | some "post" => do
+      let l ← ruleLine? j
+      body? js (ls ++ [l]) ns cs
+    | some "note" => do
+      let t ← J.str? j "text"
+      body? js ls (ns ++ [{ text := " " ++ t, applyTo := if ls.isEmpty then none else some (ls.length - 1) }]) cs
+    | some "check" => do
+      let k ← checkKind? (← J.str? j "kind")
+      let e ← expr? (← J.str? j "expr")
+      body? js ls ns (cs ++ [{ kind := k, expr := e }])
+    | _ => none
 
 def rule? (j : Json) : Option Rule := do
   let p ← pred? (← J.obj? j "pred")
-  let ls ← optAll ruleLine? (← J.arr? j "lines")
+  let (ls, ns, cs) ← body? (← J.arr? j "body") [] [] []
   let line ← J.nat? j "line"
-  pure { pred := p, lines := ls, line := line }
+  pure { pred := p, lines := ls, notes := ns, checks := cs, line := line }
 
 def items? (j : Json) : Option (List Item) := do
   let xs ← optAll J.xact? (← J.arr? j "xacts")
@@ -78,11 +132,19 @@ def kindStr : PostKind → String
   | .real => "real" | .virtual => "virtual" | .bvirtual => "bvirtual"
 
 def errStr : LErr → String
-  | .unbalanced => "unbalanced" | .twoNulls => "two-nulls"
+  | .unbalanced => "unbalanced" | .sameCommCost => "same-comm-cost" | .assertFailed => "assert-failed"
+  | .exprError => "expr-error" | .twoNulls => "two-nulls"
   | .nullAmount => "null-amount" | .unsupported => "unsupported"
 
+def noteStr : Option String → String
+  | none => ""
+  | some n => n.replace "\n" "\\n"
+
 def rowStr (x : FXact) (p : FPost) : String :=
-  s!"{x.line}|{p.line}|{p.account}|{kindStr p.kind}|{p.amount.render}|{boolStr p.generated}|{boolStr p.calculated}"
+  let c := match p.cost with
+    | some c => c.render
+    | none => "-"
+  s!"{x.line}|{p.line}|{p.account}|{kindStr p.kind}|{p.state}|{p.amount.render}|{c}|{noteStr p.note}|{boolStr p.generated}|{boolStr p.calculated}"
 
 def opLoad (args : List String) : String :=
   match args with
@@ -93,7 +155,8 @@ def opLoad (args : List String) : String :=
       let st := load icontains items
       if st.errs.any (fun e => e.2.2 = LErr.unsupported) then "err\tunsupported"
       else if st.errs.isEmpty then
-        "ok\t" ++ ";".intercalate (st.xacts.flatMap (fun x => x.posts.map (rowStr x)))
+        "ok\t" ++ ";".intercalate (st.xacts.flatMap (fun x => x.posts.map (rowStr x))) ++ "\t" ++
+          ";".intercalate ((st.warns.filter (fun w => w.2 > 0)).map (fun w => s!"{w.1}:{w.2}"))
       else
         "err\t" ++ ";".intercalate (st.errs.map (fun e => s!"{e.1}:{e.2.1}:{errStr e.2.2}"))
   | _ => "err\tbad-op"
